@@ -188,7 +188,7 @@ func runContracts(eng *Engine, prop, fnFilter, work string, timeout time.Duratio
 	// discharge in parallel
 	results := make([]OblResult, len(jobs))
 	var wg sync.WaitGroup
-	sem := make(chan struct{}, 8)
+	sem := make(chan struct{}, 6)
 	for i, j := range jobs {
 		wg.Add(1)
 		go func(i int, j job) {
@@ -207,7 +207,13 @@ func runContracts(eng *Engine, prop, fnFilter, work string, timeout time.Duratio
 				}
 				sort.Strings(vals)
 			}
-			r := solve(work, j.o.Name, q, vals, timeout, cross)
+			to := timeout
+			if j.o.Cover {
+				// vacuity probes: an inconsistent context is refuted quickly; a consistent one with
+				// quantifiers is rarely shown satisfiable, so do not wait for that
+				to = timeout / 5
+			}
+			r := solve(work, j.o.Name, q, vals, to, cross && !j.o.Cover)
 			res := OblResult{Name: j.o.Name, Kind: j.o.Kind, Func: j.o.Func, Where: j.o.Where, Desc: j.o.Desc,
 				Solver: r.solver, Secs: r.secs, All: r.all, Props: j.o.Props, Cover: j.o.Cover, Bytes: len(q),
 				Query: filepath.Join(work, sanitize(j.o.Name)+".smt2")}
